@@ -223,6 +223,32 @@ def impl_large(payload):
     return out
 
 
+def impl_dtype(payload):
+    """N_mode, N_mode_poles and the k / mu columns are properties of the mesh and the binning: the same particles handed over as
+    float32 and as float64 arrays give the same counts and bin columns (boxes whose fundamental is not a dyadic number, so
+    that bin edges and mode shells nearly coincide), and the same power within the float tolerance."""
+    import warnings
+    import numpy as np
+    warnings.simplefilter('ignore')
+    from abacusnbody.analysis.power_spectrum import calc_power
+    out = []
+    for c in payload['cases']:
+        L, n = float(c['L']), c['nmesh']
+        rs = np.random.RandomState(c['seed'])
+        pos32 = (rs.random_sample((256, 3)) * L).astype(np.float32)
+        kw = dict(nmesh=n, kbins=c['kbins'], mubins=c['mubins'], paste=c['paste'], compensated=c['compensated'],
+                  interlaced=c['interlaced'], poles=c['poles'], nthread=c['nthread'])
+        try:
+            a = _table(calc_power(pos32.copy(), L, **kw))
+            b = _table(calc_power(pos32.astype(np.float64), L, **kw))
+            bad = [k for k in EXACT_COLS if k in a and (k not in b or a[k]['v'] != b[k]['v'] or a[k]['shape'] != b[k]['shape'])]
+            out.append({'class': 'ok', 'exact_cols_differ': bad, 'N_mode_f4': a['N_mode']['v'][:12], 'N_mode_f8': b.get('N_mode', {}).get('v', [])[:12]})
+        except Exception as e:  # noqa: BLE001
+            from vlib.implrun import classify
+            out.append({'class': classify(e), 'error': repr(e)[:200], 'exact_cols_differ': ['raised']})
+    return out
+
+
 def impl_hyps(payload):
     """The hypotheses of the abstract model, sampled on the implementation."""
     import warnings
@@ -414,6 +440,24 @@ def explore(ctx):
                     'count of the bin (a bin holds more than 2^24 modes)', 'input': dict(c, large=True, threads=[run['nthread']]),
                     'impl_result': run, 'expected': r['want'],
                     'predicate': 'N_mode is the number of Fourier modes of the mesh in the bin: a property of the mesh and the binning only'}
+    # the counts and bin columns do not depend on the precision in which the caller stores the particles
+    dcases = [{'L': L, 'nmesh': n, 'kbins': kb, 'mubins': 2, 'paste': paste, 'compensated': comp, 'interlaced': inter, 'poles': [0, 2],
+               'nthread': 2, 'seed': ctx.rng.randrange(1 << 30)}
+              for (L, n, kb) in ((500.0, 12, 6), (2000.0, 20, 10), (100.0, 24, 12))
+              for (paste, comp, inter) in (('TSC', True, False), ('CIC', False, False), ('TSC', True, True))]
+    try:
+        dres = ctx.run_impl('harness.c13', 'impl_dtype', {'cases': dcases})
+        dtype_error = None
+    except Exception as e:  # noqa: BLE001
+        dres, dtype_error = [], str(e)[:500]
+    for c, r in zip(dcases, dres):
+        evaluations += 1
+        if r['exact_cols_differ'] and 'N_mode:particle-dtype' not in counterexamples:
+            counterexamples['N_mode:particle-dtype'] = {
+                'key': 'N_mode:particle-dtype', 'what': f"calc_power on a {c['L']:g} box, nmesh {c['nmesh']}: the columns {r['exact_cols_differ']} differ "
+                'between the same particles stored as float32 and as float64', 'input': dict(c, dtype_relation=True), 'impl_result': r,
+                'expected': 'identical N_mode / N_mode_poles / k and mu columns',
+                'predicate': 'N_mode and the bin columns depend on the mesh and the binning only, not on the particles'}
     # hypotheses of the abstract model
     hyp_bad = []
     for r in hyps['paint_roll']:
@@ -447,7 +491,8 @@ def explore(ctx):
         'samples': samples,
         'traces_validated_against_impl': len(hyps['paint_roll']) + len(hyps['fft_shift']) + len(hyps.get('hermitian', [])),
         'exhaustive': False, 'input_distribution': dist,
-        'mismatches': ([{'part': 'large-mesh N_mode', 'error': large_error}] if large_error else []),
+        'mismatches': ([{'part': 'large-mesh N_mode', 'error': large_error}] if large_error else []) +
+                      ([{'part': 'particle-dtype relation', 'error': dtype_error}] if dtype_error else []),
         'counterexamples': sorted(counterexamples.values(), key=lambda v: v['key']),
         'float_residual': {'rtol_of_column_max': RTOL, 'worst_observed': worst,
                            'fft_shift_worst': max([r['rel_err'] for r in hyps['fft_shift']] + [0.0])},
@@ -462,6 +507,9 @@ def search(ctx, broken):
 
 def replay(ctx, rec):
     c = rec['input']
+    if c.get('dtype_relation'):
+        r = ctx.run_impl('harness.c13', 'impl_dtype', {'cases': [c]})[0]
+        return bool(r['exact_cols_differ']), {'input': c, 'impl_result': r}
     if c.get('large'):
         r = ctx.run_impl('harness.c13', 'impl_large', {'cases': [c]})[0]
         return any(run['N_mode'] != r['want'] for run in r['runs']), {'input': c, 'impl_result': r}
